@@ -142,11 +142,18 @@ class BufferRep:
             # the only store the code performs is an append: the new list must be Q[:m+1]
             Q, m = f['Q'].z, f['m'].z
             st.fact(Implies(And(0 <= m, m < Length(Q)), Concat(SubSeq(Q, 0, m), Unit(Q[m])) == SubSeq(Q, 0, m + 1)))
-            if self.raw == 'str' and st.ghost.get('$pending') is not None:
-                # prophecy: position of item m is the index handed to init when it is materialised
-                x = st.ghost['$pending']
+            if self.raw == 'str':
+                # Q[k] is by definition init(S[k], idx_k): text S[k], category None, position = the index handed to
+                # init when item k is materialised (prophecy variable, resolved here: each k is appended once)
+                x = v.z[m]
+                eng.oblige('%s#repmap.queue-item' % eng.cur.key, st,
+                           And(m < Length(Q), Length(v.z) == m + 1, SubSeq(v.z, 0, m) == SubSeq(Q, 0, m),
+                               Tok.text(x) == Tok.text(Q[m]), Tok.cat(x) == NONE_CAT), 'A')
                 st.assume(Tok.pos(Q[m]) == Tok.pos(x))
-            eng.oblige('%s#repmap.queue==Q[:m]' % eng.cur.key, st, And(m < Length(Q), v.z == SubSeq(Q, 0, m + 1)), 'A')
+                st.assume(v.z == SubSeq(Q, 0, m + 1))
+            else:
+                eng.oblige('%s#repmap.queue==Q[:m]' % eng.cur.key, st,
+                           And(m < Length(Q), v.z == SubSeq(Q, 0, m + 1)), 'A')
             f['m'] = VI(m + 1)
             return [('fall', st)]
         raise Unsupported('store to Buffer field ' + a)
@@ -169,6 +176,8 @@ def bufiter_hook(eng, what, payload, st):
                 if view.repmap.raw == 'tok':
                     outs.append(('val', t, VTok(Q[m])))
                 else:
+                    t.fact(Length(Tok.text(Q[m])) == 1)       # iterating a str yields its characters
+                    t.fact(Tok.cat(Q[m]) == NONE_CAT)
                     outs.append(('val', t, VS(Tok.text(Q[m]))))
             return outs
     return None
@@ -178,6 +187,8 @@ REG.attr_hooks.append(bufiter_hook)
 
 BUF_INV = [A('m-lo', '0 <= self.m'), A('m-hi', 'self.m <= len(self.Q)'), A('i-lo', 'self.i >= 0'),
            A('materialised-to-cursor', 'self.m >= min(self.i, len(self.Q))')]
+REG.view(ClassView('utils.Buffer', 'StrBuffer', {'Q': 'seq[tok]', 'i': 'int', 'm': 'int'}, inv=BUF_INV,
+                   repmap=BufferRep('str')), default=False)
 REG.view(ClassView('utils.Buffer', 'Buffer', {'Q': 'seq[tok]', 'i': 'int', 'm': 'int'}, inv=BUF_INV,
                    repmap=BufferRep('tok')))
 
@@ -203,16 +214,22 @@ REG.add(Contract(
 _GI_LOOP = {0: Loop(invariant=[A('m-lo', '0 <= self.m'), A('m-hi', 'self.m <= len(self.Q)'),
                                A('i-grows', 'self.i >= old(self.i)'), A('m-grows', 'self.m >= old(self.m)'),
                                A('materialised', 'self.i == old(self.i) or self.m >= min(self.i, len(self.Q))'),
-                               A('i-bounded', 'self.i == old(self.i) or self.i <= len(self.Q)')],
+                               A('i-bounded', 'self.i == old(self.i) or self.i <= len(self.Q)'),
+                               A('m-kept-until-moved', 'self.i == old(self.i) ==> self.m == old(self.m)'),
+                               A('moved-only-if-needed', 'self.i == old(self.i) or j is None or old(self.i) <= j')],
                     decreases='len(self.Q) - self.i + 1')}
 
 REG.add(Contract(
     'utils.Buffer.__getitem__', case='int', types={'self': 'Buffer', 'i': 'int'}, result='tok',
-    requires=BUF_INV + [A('index-nonneg', 'i >= 0')], modifies=['self.i', 'self.m'],
-    ensures=[P(C20, 'item', 'result == self.Q[i]'), P(C20, 'cursor-kept', 'self.i == old(self.i)'),
-             A('in-range', 'i < len(self.Q)')] + KEEP,
-    raises={'IndexError': Raises('i >= len(self.Q)', kind='P', props=C20,
-                                 ensures=[P(C20, 'cursor-kept', 'self.i == old(self.i)')] + KEEP)},
+    requires=BUF_INV, modifies=['self.i', 'self.m'],
+    ensures=[P(C20, 'item', 'i >= 0 ==> result == self.Q[i]'), P(C20, 'cursor-kept', 'self.i == old(self.i)'),
+             A('in-range', 'i >= 0 ==> i < len(self.Q)'),
+             # negative absolute index: python indexing into the *materialised prefix* (finding D14, not claimed for C20)
+             A('negative-wraps-on-materialised', 'i < 0 ==> result == self.Q[old(self.m) + i] and old(self.m) + i >= 0 '
+                                                 'and self.m == old(self.m)')] + KEEP,
+    raises={'IndexError': Raises('(i >= 0 and i >= len(self.Q)) or (i < 0 and self.m + i < 0)', kind='P', props=C20,
+                                 ensures=[P(C20, 'cursor-kept', 'self.i == old(self.i)'),
+                                          A('m-kept-if-negative', 'i < 0 ==> self.m == old(self.m)')] + KEEP)},
     loops=_GI_LOOP))
 
 REG.add(Contract(
@@ -233,8 +250,11 @@ REG.add(Contract(
 
 REG.add(Contract(
     'utils.Buffer.peek', case='int', types={'self': 'Buffer', 'j': 'int'}, result='tok?',
-    requires=BUF_INV + [A('in-range', 'self.i + j >= 0')], modifies=['self.m'],
-    ensures=[P(C20, 'item-or-None', 'result == (self.Q[self.i + j] if self.i + j < len(self.Q) else None)')] + KEEP))
+    requires=BUF_INV, modifies=['self.m'],
+    ensures=[P(C20, 'item-or-None', 'self.i + j >= 0 ==> '
+                                    'result == (self.Q[self.i + j] if self.i + j < len(self.Q) else None)'),
+             A('negative-wraps-on-materialised', 'self.i + j < 0 ==> self.m == old(self.m) and result == '
+               '(self.Q[self.m + self.i + j] if self.m + self.i + j >= 0 else None)')] + KEEP))
 REG.add(Contract(
     'utils.Buffer.peek', case='range', types={'self': 'Buffer', 'j': 'tuple[int,int]'}, result='tok',
     requires=BUF_INV + [A('lo-in-range', 'self.i + j[0] >= 0'), A('hi-in-range', 'self.i + j[1] >= 0')],
@@ -293,35 +313,50 @@ def _buffers(st):
 def anchor_entry(eng, st, names):
     for ref, f in _buffers(st):
         st.ghost['anchors:' + ref] = [f['i'].z]
+        st.fact(JT(sl(f['Q'].z, f['i'].z, f['i'].z)) == Empty(Str))
 
 
 def anchor_loop(eng, st):
     for ref, f in _buffers(st):
         st.ghost['anchors:' + ref] = list(st.ghost.get('anchors:' + ref, [])) + [f['i'].z]
+        st.fact(JT(sl(f['Q'].z, f['i'].z, f['i'].z)) == Empty(Str))
 
 
 REG.entry_hooks.append(anchor_entry)
 REG.loop_hooks.append(anchor_loop)
 
 
+def moved_buffers(st, binding, pre):
+    """buffers among the arguments whose cursor term changed: (ref, Q, i0, i1)"""
+    for v in binding.values():
+        if isinstance(v, Val) and v.ty == 'obj' and v.a['ref'] in pre.heap:
+            f, f0 = st.heap[v.a['ref']], pre.heap[v.a['ref']]
+            if 'Q' in f and 'i' in f and f['Q'].ty == 'seq' and not f['i'].z.eq(f0['i'].z):
+                yield v.a['ref'], f['Q'].z, f0['i'].z, f['i'].z
+
+
 def move_facts(eng, st, binding, pre):
     """cursor moved i0 -> i1: jointext additivity from every anchor (definitional instances of the fold)"""
-    obj = binding['self']
-    f = st.heap[obj.a['ref']]
-    Q = f['Q'].z
-    i0 = pre.heap[obj.a['ref']]['i'].z
-    i1 = f['i'].z
-    n = Length(Q)
-    st.fact(Implies(And(0 <= i0, i0 < n), JT(sl(Q, i0, i0 + 1)) == Tok.text(Q[i0])))
-    eng.touch(st, i0)
-    for a in st.ghost.get('anchors:' + obj.a['ref'], []):
-        st.fact(Implies(And(0 <= a, a <= i0, i0 <= i1, i1 <= n),
-                        JT(sl(Q, a, i1)) == Concat(JT(sl(Q, a, i0)), JT(sl(Q, i0, i1)))))
-        st.fact(Implies(And(0 <= a), JT(sl(Q, a, a)) == Empty(Str)))
+    for ref, Q, i0, i1 in moved_buffers(st, binding, pre):
+        n = Length(Q)
+        d = simplify(i1 - i0)
+        eng.touch(st, i0)
+        if z3.is_int_value(d) and 1 <= d.as_long() <= 4:
+            k = d.as_long()
+            st.fact(Implies(And(0 <= i0, i0 + k <= n), JT(sl(Q, i0, i0 + k)) ==
+                            (Concat(*[Tok.text(Q[i0 + j]) for j in range(k)]) if k > 1 else Tok.text(Q[i0]))))
+            for j in range(k):
+                eng.touch(st, i0 + j)
+        for k in (1, 2, 3):
+            st.fact(Implies(And(0 <= i0, i1 == i0 + k, i1 <= n), JT(sl(Q, i0, i1)) ==
+                            (Concat(*[Tok.text(Q[i0 + j]) for j in range(k)]) if k > 1 else Tok.text(Q[i0]))))
+        for a in st.ghost.get('anchors:' + ref, []):
+            st.fact(Implies(And(0 <= a, a <= i0, i0 <= i1, i1 <= n),
+                            JT(sl(Q, a, i1)) == Concat(JT(sl(Q, a, i0)), JT(sl(Q, i0, i1)))))
+            st.fact(Implies(And(0 <= a), JT(sl(Q, a, a)) == Empty(Str)))
 
 
-for _c in REG.contracts['utils.Buffer.forward'] + REG.contracts['utils.Buffer.__next__']:
-    _c.hooks.append(move_facts)
+REG.post_hooks.append(move_facts)
 
 cond_tok = Function('cond_tok', Tok, BoolSort())
 cond_buf = Function('cond_buf', TokSeq, IntSort(), BoolSort())
@@ -403,3 +438,20 @@ REG.add(Contract('utils.Buffer.__init__', case='tokens',
                  modifies=['self.Q', 'self.i', 'self.m'],
                  ensures=[P(C20, 'sequence', 'self.Q == iterator'), P(C20, 'cursor', 'self.i == 0'),
                           A('nothing-materialised', 'self.m == 0'), A('inv', 'inv(self)')]))
+
+
+# ---------------------------------------------------------------------- string-backed buffer (input of categorize)
+# Q[k] = Token(S[k], idx_k): one-character text, category None, position = cursor at materialisation.
+_n = REG.contracts['utils.Buffer.__next__'][0]
+REG.add(Contract(
+    'utils.Buffer.__next__', case='str', types={'self': 'StrBuffer'}, result='tok',
+    requires=WEAK + [A('items-are-characters', 'forall(k, 0, len(self.Q), len(self.Q[k].text) == 1 and self.Q[k].cat == -1)')],
+    modifies=['self.i', 'self.m'],
+    ensures=list(_n.ensures) + [
+        P(['C19'], 'one-character', 'len(result.text) == 1'), A('category-none', 'result.cat == -1'),
+        P(['C13', 'C19'], 'position-is-index', 'old(self.m) <= old(self.i) ==> result.position == old(self.i)')],
+    raises=_n.raises,
+    loops={0: Loop(invariant=list(_n.loops[0].invariant) + [
+        A('materialised-items', 'forall(k, old(self.m), self.m, self.Q[k].position == self.i and '
+                                'len(self.Q[k].text) == 1 and self.Q[k].cat == -1)')],
+        decreases=_n.loops[0].decreases)}))
